@@ -169,7 +169,7 @@ def gen_hist(rng, boundary=False):
         nonlocal now
         # keep every possible age (since the last heartbeat, and since the last acquire — which refreshes the
         # cache entry only while the replica leads) at least 250 ms away from the 3 s boundary at a pass
-        if any(abs((now - t) - 3000) < 250 for t in list(hbt.values()) + list(acq.values())):
+        while any(abs((now - t) - 3000) < 250 for t in list(hbt.values()) + list(acq.values())):
             ops.append(ADV(300))
             now += 300
 
